@@ -65,7 +65,17 @@ def _worker_run(item):
         return idx, recs, None
     except CaseTimeout:
         return idx, None, 'driver timeout after %ss' % limit
-    except BaseException:
+    except BaseException as e:
+        # An exception that escapes from the code under test (its innermost frame lies in the
+        # repository) is an observation, not a machinery failure: it becomes a record the judge
+        # rejects (clause Shape), so that a change that makes the real code raise is reported as a
+        # violation.  Exceptions raised by the harness itself stay machinery failures.
+        tb = traceback.extract_tb(e.__traceback__)
+        root = os.path.join(os.path.realpath(REPO), '')
+        if tb and os.path.realpath(tb[-1].filename).startswith(root) and not isinstance(e, (KeyboardInterrupt, MemoryError)):
+            return idx, [dict(shape_ok=False, crashed=True, crash='%s: %s' % (type(e).__name__, str(e)[:200]),
+                              where='%s:%d' % (os.path.relpath(tb[-1].filename, root), tb[-1].lineno),
+                              case=json.dumps(case)[:400])], None
         return idx, None, traceback.format_exc()
     finally:
         signal.setitimer(signal.ITIMER_REAL, 0)
@@ -225,7 +235,7 @@ def _run_property(prop_name, tier, seed, replay, verbose):
     new, seen_known = [], {}
     for rid, clauses in jr['rejected']:
         rec = byid[rid]
-        fp = prop.fingerprint(rec, clauses)
+        fp = ('%s:Crashed:%s' % (pid, rec.get('where'))) if rec.get('crashed') else prop.fingerprint(rec, clauses)
         hit = None
         for k in known:
             if k['fingerprint'] == fp:
@@ -242,10 +252,13 @@ def _run_property(prop_name, tier, seed, replay, verbose):
     # ---- 6. evidence ------------------------------------------------------------
     nontriv = set()
     for r in records:
+        if r.get('crashed'):
+            continue
         k = prop.nontrivial(r)
         if k is not None:
             nontriv.add(k)
-    samples = [prop.sample(r) for r in records[:: max(1, len(records) // 3)][:3]]
+    good = [r for r in records if not r.get('crashed')] or records
+    samples = [r if r.get('crashed') else prop.sample(r) for r in good[:: max(1, len(good) // 3)][:3]]
     coverage = dict(
         states=mc_states + jr['states'],
         transitions=mc_trans + jr['transitions'],
